@@ -109,7 +109,7 @@ func cmdSelftest(args []string) int {
 				return
 			}
 			cmd := exec.Command(self, "check", c.prop, "--tier", "quick")
-			cmd.Env = append(os.Environ(), "GOVC_REPO="+repo, "GOVC_OUTDIR="+out)
+			cmd.Env = append(os.Environ(), "GOVC_REPO="+repo, "GOVC_OUTDIR="+out, "GOVC_UNDECIDED_EXIT=2")
 			if c.mustFail {
 				cmd.Env = append(cmd.Env, "GOVC_BUDGET=10")
 			}
